@@ -143,7 +143,13 @@ def parse_map(p: Parser) -> MapAstNode:
     first_identifier = p.current()
     expect_token(first_identifier, TokenType.IDENTIFIER)
 
-    while p.current().type == TokenType.IDENTIFIER:
+    # the attributes are on the line of the directive, an identifier on a following line starts the next statement.
+    while (
+        p.current().type == TokenType.IDENTIFIER
+        and p.current().position is not None
+        and first_identifier.position is not None
+        and p.current().position.line == first_identifier.position.line
+    ):
         identifier = p.next()
 
         expect_token(identifier, TokenType.IDENTIFIER)
